@@ -165,8 +165,12 @@ class Check(PropCheck):
             return 'KF4'
         return None
 
-    def compare_override(self, case):
-        return None
+    def ignore_disagreement(self, case, reasons):
+        # with exact ties the float run may break a tie differently from the exact-rational model run (rounding of the weighted
+        # average): the tie-dependent clauses are then not compared; the tie-independent ones are still evaluated by the predicate
+        self.ensure_meta(case)
+        merges, unamb = self.run_info(case)
+        return not unamb
 
     def predicate(self, case, il):
         self.ensure_meta(case)
